@@ -34,6 +34,14 @@ pub fn gen_dict_program(t: &mut Tape) -> DictOut {
         Lit::Mysterious,
         Lit::Str("0".into()),
         Lit::Str("k2".into()),
+        // keys that look like numbers next to keys that do not (an order that mixes two criteria is not an order)
+        Lit::Str("2".into()),
+        Lit::Str("10".into()),
+        Lit::Str("1st".into()),
+        Lit::Str("9".into()),
+        Lit::Str("21".into()),
+        Lit::Str("2nd".into()),
+        Lit::Str("3".into()),
         // long keys (fixed-size key buffers, truncated sort keys): they differ only at the far end
         Lit::Str(format!("{}a", "k".repeat(70))),
         Lit::Str(format!("{}b", "k".repeat(70))),
@@ -79,7 +87,12 @@ pub fn gen_dict_program(t: &mut Tape) -> DictOut {
                 _ => num(0.5 + i as f64),
             }
         } else {
-            strlit(&format!("v{}{}", i, gen_string(t).chars().filter(|c| c.is_alphanumeric()).take(3).collect::<String>()))
+            // now and then the same value under several keys (an entry must be told from another by its key)
+            if mode == 0 && t.chance(1, 4) {
+                strlit("same")
+            } else {
+                strlit(&format!("v{}{}", i, gen_string(t).chars().filter(|c| c.is_alphanumeric()).take(3).collect::<String>()))
+            }
         };
         s.push(Stmt::Assign { dest: sub(&x, k.clone()), value: vec![v], op: None });
     }
@@ -99,7 +112,15 @@ pub fn gen_dict_program(t: &mut Tape) -> DictOut {
     }
     let n_ops = 1 + t.pick(4);
     for _ in 0..n_ops {
-        match t.weighted(&[40, 10, 10, 8, 8, 8, 8, 8]) {
+        match t.weighted(&[40, 10, 10, 8, 8, 8, 8, 8, 10]) {
+            8 => {
+                // roll (nothing to take when the list part is empty, one element otherwise), then every keyed entry by name
+                s.push(Stmt::Pop { array: pvar(&x), dest: Some(Lhs::Ident(Ident::Name(d.clone()))) });
+                s.push(say(var(&d)));
+                for k in &keys {
+                    s.push(say(bin(BinOp::Plus, strlit("@"), Expr::Primary(Primary::Subscript(Box::new(pvar(&x)), Box::new(Primary::Lit(k.clone())))))));
+                }
+            }
             0 => {
                 let param = match t.pick(3) {
                     0 => None,
